@@ -1,0 +1,11 @@
+//go:build verif
+
+package ed25519
+
+import "github.com/cloudflare/pat-go/ed25519/internal/edwards25519/field"
+
+// VerifFieldOp exposes the field arithmetic of the internal package to the /verif correspondence
+// harness (compiled only with -tags verif); see field.VerifOp.
+func VerifFieldOp(op string, a, b [5]uint64, k uint64, x []byte) ([5]uint64, int, []byte) {
+	return field.VerifOp(op, a, b, k, x)
+}
